@@ -11,6 +11,7 @@ package data
 
 //@ func (Point).ToPb
 //@   props C12
+//@   local p data.Point#1
 //@   fresh res0.Time
 //@   ensures [C12] res1 == nil <==> tsRangeOK(ns(p.Time))
 //@   ensures [C12] res1 == nil ==> res0.Type == p.Type && res0.Key == p.Key && bits64(res0.Value) == bits64(p.Value) && res0.Text == p.Text && res0.Origin == p.Origin && sameSlice(res0.Data, p.Data)
@@ -19,6 +20,7 @@ package data
 
 //@ func PbToPoint
 //@   props C12
+//@   local sPb *pb.Point#1
 //@   requires sPb != nil
 //@   ensures [C12] res1 == nil ==> res0.Type == sPb.Type && res0.Key == sPb.Key && bits64(res0.Value) == bits64(sPb.Value) && res0.Text == sPb.Text && res0.Origin == sPb.Origin && sameSlice(res0.Data, sPb.Data)
 //@   ensures [C12] res1 == nil ==> res0.Tombstone == int(sPb.Tombstone) && sPb.Time != nil && ns(res0.Time) == tsNs(sPb.Time)
@@ -26,22 +28,26 @@ package data
 
 //@ func verifPointRoundTrip
 //@   props C12
+//@   local p data.Point#1
 //@   ensures [C12] point-roundtrip: tsRangeOK(ns(p.Time)) ==> res1 == nil
 //@   ensures [C12] point-roundtrip-fields: res1 == nil ==> res0.Type == p.Type && res0.Key == p.Key && bits64(res0.Value) == bits64(p.Value) && res0.Text == p.Text && res0.Origin == p.Origin && res0.Data == p.Data && ns(res0.Time) == ns(p.Time)
 //@   ensures [C12] point-roundtrip-tombstone: res1 == nil && fitsInt32(p.Tombstone) ==> res0.Tombstone == p.Tombstone
 
 //@ func (Point).ToSerial
 //@   props C12, C17
+//@   local p data.Point#1
 //@   ensures [C12,C17] res1 == nil && res0.Type == p.Type && res0.Key == p.Key && res0.Text == p.Text && res0.Origin == p.Origin && sameSlice(res0.Data, p.Data) && res0.Tombstone == int32(p.Tombstone) && bits32(res0.Value) == bits32(float32(p.Value))
 //@   ensures [C12,C17] int(res0.Time) == ns(p.Time) || !(-9223372036854775808 <= ns(p.Time) && ns(p.Time) <= 9223372036854775807)
 
 //@ func SerialToPoint
 //@   props C12, C17
+//@   local sPb *pb.SerialPoint#1
 //@   requires sPb != nil
 //@   ensures [C12,C17] res1 == nil && res0.Type == sPb.Type && res0.Key == sPb.Key && res0.Text == sPb.Text && res0.Origin == sPb.Origin && sameSlice(res0.Data, sPb.Data) && res0.Tombstone == int(sPb.Tombstone) && ns(res0.Time) == int(sPb.Time) && bits64(res0.Value) == bits64(float64(sPb.Value))
 
 //@ func verifSerialPointRoundTrip
 //@   props C12, C17
+//@   local p data.Point#1
 //@   ensures [C12,C17] serial-point-roundtrip: res1 == nil && res0.Type == p.Type && res0.Key == p.Key && res0.Text == p.Text && res0.Origin == p.Origin && res0.Data == p.Data
 //@   ensures [C12,C17] serial-point-roundtrip-value: bits64(res0.Value) == bits64(float64(float32(p.Value)))
 //@   ensures [C12,C17] serial-point-roundtrip-time: -9223372036854775808 <= ns(p.Time) && ns(p.Time) <= 9223372036854775807 ==> ns(res0.Time) == ns(p.Time)
@@ -58,6 +64,8 @@ package data
 
 //@ func (*Points).ToPb
 //@   props C12
+//@   local ps *data.Points#1
+//@   local pbPoints []*pb.Point#1
 //@   requires ps != nil
 //@   loop 1:
 //@     invariant -1 <= rangeindex && rangeindex < len(*ps) || rangeindex == -1
@@ -67,6 +75,8 @@ package data
 
 //@ func PbDecodePoints
 //@   props C12
+//@   local pbPoints *pb.Points#1
+//@   local ret []data.Point#1
 //@   loop 1:
 //@     invariant -1 <= rangeindex && rangeindex < len(pbPoints.Points) || rangeindex == -1
 //@     invariant pbPoints != nil && len(ret) == len(pbPoints.Points) && isfresh(ret)
@@ -78,6 +88,8 @@ package data
 
 //@ func PbDecodeSerialPoints
 //@   props C12, C17
+//@   local pbSerial *pb.SerialPoints#1
+//@   local points []data.Point#1
 //@   loop 1:
 //@     invariant -1 <= rangeindex && rangeindex < len(pbSerial.Points) || rangeindex == -1
 //@     invariant pbSerial != nil && len(points) == len(pbSerial.Points) && isfresh(points)
@@ -87,6 +99,9 @@ package data
 
 //@ func (*NodeEdge).ToPbNode
 //@   props C12
+//@   local n *data.NodeEdge#1
+//@   local points []*pb.Point#1
+//@   local edgePoints []*pb.Point#2
 //@   requires n != nil
 //@   fresh res0
 //@   ensures [C12] res1 == nil ==> res0 != nil && res0.Id == n.ID && res0.Type == n.Type && res0.Parent == n.Parent && uint32(res0.Hash) == n.Hash
@@ -111,6 +126,9 @@ package data
 
 //@ func PbToNode
 //@   props C12
+//@   local pbNode *pb.Node#1
+//@   local points []data.Point#1
+//@   local edgePoints []data.Point#2
 //@   requires pbNode != nil && noNilPoints(pbNode.Points) && noNilPoints(pbNode.EdgePoints)
 //@   ensures [C12] res1 == nil ==> res0.ID == pbNode.Id && res0.Type == pbNode.Type && res0.Parent == pbNode.Parent && res0.Hash == uint32(pbNode.Hash)
 //@   ensures [C12] res1 == nil ==> len(res0.Points) == len(pbNode.Points) && len(res0.EdgePoints) == len(pbNode.EdgePoints)
@@ -136,10 +154,13 @@ package data
 //@   props C12
 //@ func (*NodeEdge).ToPb
 //@   props C12
+//@   local n *data.NodeEdge#1
 //@   requires n != nil
 
 //@ func PbDecodeNodes
 //@   props C12
+//@   local pbNodes *pb.Nodes#1
+//@   local ret []data.NodeEdge#1
 //@   loop 1:
 //@     invariant -1 <= rangeindex && rangeindex < len(pbNodes.Nodes) || rangeindex == -1
 //@     invariant pbNodes != nil && len(ret) == len(pbNodes.Nodes) && isfresh(ret)
@@ -149,6 +170,8 @@ package data
 
 //@ func PbDecodeNodesRequest
 //@   props C12
+//@   local pbNodesRequest *pb.NodesRequest#1
+//@   local ret []data.NodeEdge#1
 //@   loop 1:
 //@     invariant -1 <= rangeindex && rangeindex < len(pbNodesRequest.Nodes) || rangeindex == -1
 //@     invariant pbNodesRequest != nil && len(ret) == len(pbNodesRequest.Nodes) && isfresh(ret)
@@ -158,6 +181,8 @@ package data
 
 //@ func (*Nodes).ToPb
 //@   props C12
+//@   local nodes *data.Nodes#1
+//@   local pbNodes []*pb.Node#1
 //@   requires nodes != nil
 //@   loop 1:
 //@     invariant -1 <= rangeindex && rangeindex < len(*nodes) || rangeindex == -1
@@ -167,6 +192,8 @@ package data
 
 //@ func (*Nodes).ToPbNodes
 //@   props C12
+//@   local nodes *data.Nodes#1
+//@   local pbNodes []*pb.Node#1
 //@   requires nodes != nil
 //@   loop 1:
 //@     invariant -1 <= rangeindex && rangeindex < len(*nodes) || rangeindex == -1
@@ -176,6 +203,9 @@ package data
 
 //@ func DecodeSerialHrPayload
 //@   props C12
+//@   local payload []byte#1
+//@   local sampCount int#1
+//@   local i int#2
 //@   wrap64
 //@   loop 1:
 //@     invariant 0 <= i && i <= sampCount && sampCount == (len(payload) - 44)/4 && len(payload) >= 44
